@@ -8,6 +8,8 @@
                                                     (datetimes are µs since ordinal 0, as the onsets × 10^6)
     tzgen.local.wall <std> <dst> <hasdst> <table> [us…] <stdabbr hex> <dstabbr hex>   the translated tzlocal methods:
                                                     amb;naive,isdst,off,dst,name;naive,isdst,off,dst,name (fold 0 ; fold 1)
+    tzgen.range.fromutc_pub <std> <dst> <hasdst> <table> [us…] <attached 0|1>   the PUBLIC fromutc: translated decorator
+                                                    `_validate_fromutc_inputs` around the translated `tzrangebase.fromutc`
     tzgen.str.init <posix> <hex>                    Gen.tzstr_init, printed like tz.zone
     tzgen.str.trans <posix> <hex> <year>            Gen.tzrange_transitions on it
     tzgen.str.delta <std> <dst> <isend> <month> <week> <weekday> <yday> <jyday> <day> <time>   Gen.tzstr_delta
@@ -91,6 +93,10 @@ def localWall (z : TZ.RangeZone) (us : Int) : String :=
 
 def handle (op : String) (args : List String) : Option String :=
   match op, args with
+  | "tzgen.range.fromutc_pub", [s, d, h, tbl, xs, att] => do
+      let (z, ts) ← Ops.Zones.rangeOf [s, d, h, tbl, xs]
+      pure ("ok " ++ " ".intercalate (ts.map fun us => Ops.TzGen.showRDt
+        (Gen.validateFromutcInputs (Gen.tzrange_fromutc z) { us, fold := false, attached := att == "1" })))
   | "tzgen.local.wall", [s, d, h, tbl, xs, sa, da] => do
       let (z, ws) ← Ops.Zones.rangeOf [s, d, h, tbl, xs]
       let sa ← parseHexBytes? sa; let da ← parseHexBytes? da
